@@ -1,3 +1,5 @@
+use std::panic::{catch_unwind, AssertUnwindSafe};
+
 use bgpfu::RpslEvaluator;
 use ip::traits::PrefixSet;
 
@@ -36,19 +38,32 @@ impl Evaluate for Candidate {
             %self.filter_expr,
             "trying to evaluate filter expression"
         );
-        let ranges = evaluator
-            .evaluate(self.filter_expr.clone())
-            .map_err(|err| {
+        // The expression evaluator panics on valid RPSL constructs it does not support (AS-path
+        // regular expressions, attribute matches). Contain that to the policy concerned, like any
+        // other evaluation failure, so that the remaining policies are still evaluated.
+        let evaluated = catch_unwind(AssertUnwindSafe(|| {
+            evaluator.evaluate(self.filter_expr.clone())
+        }));
+        let ranges = match evaluated {
+            Ok(Ok(set)) => {
+                let (ipv4, ipv6) = set.as_partitions();
+                Some((ipv4.ranges().collect(), ipv6.ranges().collect()))
+            }
+            Ok(Err(err)) => {
                 tracing::error!(
                     "failed to evaluate filter expression {}: {err:#}",
                     self.filter_expr,
                 );
-            })
-            .map(|set| {
-                let (ipv4, ipv6) = set.as_partitions();
-                (ipv4.ranges().collect(), ipv6.ranges().collect())
-            })
-            .ok();
+                None
+            }
+            Err(_) => {
+                tracing::error!(
+                    "evaluation of filter expression {} panicked (unsupported construct?)",
+                    self.filter_expr,
+                );
+                None
+            }
+        };
         Evaluated {
             filter_expr: self.filter_expr,
             ranges,
